@@ -9,6 +9,7 @@ import (
 	"fmt"
 	"io"
 	"net"
+	"strings"
 	"testing"
 	"time"
 
@@ -310,6 +311,7 @@ func checkToken(c TokenCase, u *vf.Unit) *vf.Verdict {
 		copy(nonce[:], c.IP)
 		enc := sealToken(c.Key, nonce, body)
 		oversized := len(c.Data) == 0 && c.Auth.IsRetryToken && (len(c.Auth.OriginalDestConnectionID) > 20 || len(c.Auth.RetrySrcConnectionID) > 20)
+		isCIDPanic := func(v *vf.Verdict) bool { return v != nil && strings.Contains(v.Detail, "invalid conn id length") }
 		v := guardPanic("token", func() *vf.Verdict {
 			tok, err := tg.DecodeToken(enc)
 			if len(c.Data) != 0 {
@@ -330,7 +332,7 @@ func checkToken(c TokenCase, u *vf.Unit) *vf.Verdict {
 			u.Class("auth-decoded")
 			return nil
 		})
-		if v != nil && oversized && !strict() {
+		if isCIDPanic(v) && (oversized || len(c.Data) != 0) && !strict() {
 			// An AUTHENTIC Retry token (sealed with the server's own key) that carries a connection ID
 			// longer than 20 bytes makes DecodeToken panic in protocol.ParseConnectionID. Only the holder
 			// of the token key can produce it, so it is not attacker-reachable; recorded in NOTES.md and
@@ -338,7 +340,7 @@ func checkToken(c TokenCase, u *vf.Unit) *vf.Verdict {
 			u.Class("auth-oversized-cid-panics")
 			return nil
 		}
-		if v != nil && oversized {
+		if isCIDPanic(v) {
 			v.Sig = "C08/token/authentic-oversized-cid-panic"
 		}
 		return v
